@@ -20,7 +20,7 @@ BOUNDS = {'quick': 'between: all reals; congruence: 3 moduli x symbolic target/i
                    'LinearComparer equals/offset with 3 scalar samples (NRA, 30 s cap)', 'thorough': 'eigenvector 3x3, entry comparer 2x3 with 2 samples'}
 OUTSIDE = ['vector_span_comparer / vector_phase_comparer beyond one real vector (stubbed least squares; complex phases other than +1/-1), LinearComparer proportional/linear modes (np.linalg.lstsq is LAPACK)', 'complex targets',
            'invariance of the eigenvector verdict under rescaling with percentage tolerance (NRA timeout in probes)']
-DEADLINE = {'quick': 170, 'thorough': 1500}
+DEADLINE = {'quick': 600, 'thorough': 1500}
 FUNCS = ['comparers.between_comparer', 'comparers.congruence_comparer', 'comparers.eigenvector_comparer', 'comparers.MatrixEntryComparer.__call__',
          'comparers.EqualityComparer.__call__', 'linear_comparer.LinearComparer.__call__/get_equals_fit_error/get_offset_fit_error/check_comparing_zero',
          'mathfuncs.within_tolerance', 'mathfuncs.is_nearly_zero', 'MatrixGrader.validate_student_input_shape', 'MatrixGrader.check_response']
